@@ -49,6 +49,11 @@ type execCmd struct {
 	emit     int  // number of updates to emit (0 = none)
 	complete bool // return from Execute afterwards
 	nonOK    bool // completion status
+	// code: status code of a non-OK completion (0 = codes.Internal);
+	// okStyle: how an OK completion spells its status (0 = no status
+	// message, 1 = explicit status with code OK).
+	code    codes.Code
+	okStyle int
 }
 
 // execRec is the monitor's record of one execution the scheduler asked for.
@@ -288,6 +293,7 @@ func (m *monitor) checkRequest(ctx context.Context, req *remoteworker.Synchroniz
 			nonOK := status.ErrorProto(st.Completed.GetStatus()) != nil
 			if nonOK {
 				m.situation("non-ok-completion-reported")
+				m.situation("non-ok-completion-reported code=" + codes.Code(st.Completed.GetStatus().GetCode()).String())
 				m.needReadiness = true
 				if !pbi {
 					m.violation("non-ok-completion-without-prefer-being-idle", fmt.Sprintf("request #%d reports a completion with status code %d but PreferBeingIdle is false", m.syncCount, st.Completed.GetStatus().GetCode()))
@@ -541,6 +547,9 @@ func (e fakeExecutor) CheckReadiness(ctx context.Context) error {
 		m.logf("readiness check fails")
 		m.histf("C:fail")
 		m.situation("readiness-failure")
+		if m.needReadiness {
+			m.situation("readiness-failure-after-non-ok-completion")
+		}
 		return status.Error(codes.Internal, "Still cannot contact runner")
 	}
 	m.logf("readiness check ok")
@@ -563,6 +572,19 @@ func (e fakeExecutor) Execute(ctx context.Context, filePool pool.FilePool, monit
 	}
 	rec.entered = true
 	rec.ctx = ctx
+	// The action the scheduler asked for lives in the instance "worker's
+	// prefix + instance_name_suffix" and is addressed with the requested
+	// digest function (remoteworker.proto).
+	wantInstance := "prefix"
+	if request.InstanceNameSuffix != "" {
+		wantInstance += "/" + request.InstanceNameSuffix
+	}
+	if got := digestFunction.GetInstanceName().String(); got != wantInstance || digestFunction.GetEnumValue() != request.DigestFunction {
+		m.violation("execute-started-in-foreign-instance-or-digest-function",
+			fmt.Sprintf("execution %d: Execute was given instance name %q / digest function %s, the scheduler asked for instance %q (prefix + suffix %q) / %s",
+				rec.id, got, digestFunction.GetEnumValue(), wantInstance, request.InstanceNameSuffix, request.DigestFunction))
+	}
+	m.situation("execute-instance-suffix=" + map[bool]string{true: "empty", false: "set"}[request.InstanceNameSuffix == ""])
 	m.active++
 	m.logf("exec %d (%s) enters Execute; active=%d", rec.id, rec.digest.GetHash()[:8], m.active)
 	m.histf("E+%d", m.active)
@@ -629,7 +651,7 @@ func (e fakeExecutor) Execute(ctx context.Context, filePool pool.FilePool, monit
 				m.mu.Unlock()
 			}
 			if c.complete {
-				return e.finishWith(rec, c.nonOK)
+				return e.finishCmd(rec, c)
 			}
 			m.mu.Lock()
 			m.logf("exec %d emitted %d update(s), total %d", rec.id, c.emit, len(rec.updates))
@@ -645,7 +667,21 @@ func (e fakeExecutor) finish(rec *execRec, aborted bool) *remoteexecution.Execut
 }
 
 func (e fakeExecutor) finishWith(rec *execRec, nonOK bool) *remoteexecution.ExecuteResponse {
+	return e.finishCmd(rec, execCmd{complete: true, nonOK: nonOK})
+}
+
+// nonOKCodes are all status codes a failed completion is generated with: the
+// statement speaks of "a non-OK status", not of particular codes.
+var nonOKCodes = []codes.Code{
+	codes.Canceled, codes.Unknown, codes.InvalidArgument, codes.DeadlineExceeded, codes.NotFound,
+	codes.AlreadyExists, codes.PermissionDenied, codes.ResourceExhausted, codes.FailedPrecondition,
+	codes.Aborted, codes.OutOfRange, codes.Unimplemented, codes.Internal, codes.Unavailable,
+	codes.DataLoss, codes.Unauthenticated,
+}
+
+func (e fakeExecutor) finishCmd(rec *execRec, c execCmd) *remoteexecution.ExecuteResponse {
 	m := e.m
+	nonOK := c.nonOK
 	resp := &remoteexecution.ExecuteResponse{
 		Result:  &remoteexecution.ActionResult{},
 		Message: fmt.Sprintf("token-b%d-v%d-x%d", m.cfg.Base, m.cfg.Variant, rec.id),
@@ -654,7 +690,14 @@ func (e fakeExecutor) finishWith(rec *execRec, nonOK bool) *remoteexecution.Exec
 	if rec.cancelSeen {
 		resp.Status = status.New(codes.Canceled, "context canceled").Proto()
 	} else if nonOK {
-		resp.Status = status.New(codes.Internal, "Failed to contact runner").Proto()
+		code := c.code
+		if code == codes.OK {
+			code = codes.Internal
+		}
+		resp.Status = status.New(code, "Failed to contact runner").Proto()
+	} else if c.okStyle == 1 {
+		resp.Status = status.New(codes.OK, "").Proto()
+		resp.Result.ExitCode = 1 // the action failed, the worker did not
 	}
 	rec.response = resp
 	rec.responseSnap = proto.Clone(resp).(*remoteexecution.ExecuteResponse)
